@@ -220,7 +220,7 @@ class World:
         return tr, protocol
 
 
-def run_scenario(script, *, close_at_iteration=None, close_at_time=None, horizon=400.0, drain=200.0, configure=None, sample_tasks=True, use_shim=True):
+def run_scenario(script, *, close_at_iteration=None, close_at_time=None, horizon=400.0, drain=200.0, configure=None, sample_tasks=True, use_shim=True, bystander_close_at=None):
     """Run ConnectionManager.connect_loop() on a fresh virtual loop.
 
     close() is injected either before loop iteration `close_at_iteration` or at virtual time `close_at_time`.
@@ -265,6 +265,14 @@ def run_scenario(script, *, close_at_iteration=None, close_at_time=None, horizon
                 do_close()
 
         loop.on_iteration = hook
+        if bystander_close_at is not None:
+            # a second, unrelated ConnectionManager on the same loop: it connects, stays connected, and is closed at the given
+            # virtual time. Managers must be independent: nothing of this may show in the first manager's trace.
+            other_world = World(loop, [("ok", 0.0, None)], mc)
+            other = mc.ConnectionManager(other_world.factory)
+            loop.create_task(other.connect_loop())
+            loop.call_at(bystander_close_at, other.close)
+            out["bystander_world"] = other_world
         main = loop.create_task(mgr.connect_loop())
 
         def main_done(t):
